@@ -339,6 +339,13 @@ Definition d_rreq (x : xval) : option rreq :=
       | Some m, Some hs => Some {| rq_method := m; rq_ae := ae; rq_ranges := hs; rq_ims := ims |}
       | _, _ => None
       end
+  | XL [XN m; XN ae; h; XN ims; XN _] =>
+      (* the 5th field (Accept-Language class) selects the variant of a page with a vary rule: every variant of the
+         fixture's page has the same representations, so the model does not look at it *)
+      match d_meth m, d_list d_B h with
+      | Some m, Some hs => Some {| rq_method := m; rq_ae := ae; rq_ranges := hs; rq_ims := ims |}
+      | _, _ => None
+      end
   | _ => None
   end.
 
